@@ -135,5 +135,6 @@ package document
 //@   invariant closedRows(old(allocBound()))
 //@   invariant closedCells(old(allocBound()))
 //@   invariant closedTables(old(allocBound()))
+// LAST invariant on purpose (its obligation class is the recorded known finding C17 "unknown element kinds are shared"):
 //@   invariant forall j int :: 0 <= j && j < #i && !old(isKnownKind(source.Body.Elements[j])) ==> fresh(doc.Body.Elements[j])
 //@   decreases len(source.Body.Elements) - #i
